@@ -920,7 +920,11 @@ def tamper_catalogue(case, st):
         return s2
 
     def commit(script):
-        return S.p2sh(S.hash160(script)) if kind == "p2sh" else S.p2wsh(S.sha256(script))
+        if kind == "p2sh":
+            return S.p2sh(S.hash160(script))
+        if kind == "p2wsh":
+            return S.p2wsh(S.sha256(script))
+        return S.p2sh(S.hash160(S.p2wsh(S.sha256(script))))          # p2sh-p2wsh
     field = "redeem_script" if kind == "p2sh" else "witness_script"
     xp = [c["xpub"] for c in w["cosigners"]]
     fps = [c["fp"] for c in w["cosigners"]]
@@ -934,11 +938,22 @@ def tamper_catalogue(case, st):
             out.append(("out-spk-swapped-foreign-" + nm, mut(lambda s, t, spk=spk: t["outs"][ci].__setitem__("spk", spk))))
         # the committed hash belongs to the OTHER commitment type of the same script (p2sh <-> p2wsh)
         script = st["outputs"][ci][field]
-        other_spk = S.p2wsh(S.sha256(script)) if kind == "p2sh" else S.p2sh(S.hash160(script))
+        other_spk = S.p2sh(S.hash160(script)) if kind == "p2wsh" else S.p2wsh(S.sha256(script))
         out.append(("out-spk-other-commitment-type", mut(lambda s, t: t["outs"][ci].__setitem__("spk", other_spk))))
+
+        # the change metadata re-dressed as nested segwit (RedeemScript = P2WSH program of the honest script, which
+        # becomes the WitnessScript): once under a foreign P2SH hash, once under the hash that really commits to it
+        def nest(s, t, spk):
+            s["outputs"][ci]["witness_script"] = script
+            s["outputs"][ci]["redeem_script"] = S.p2wsh(S.sha256(script))
+            t["outs"][ci]["spk"] = spk
+        out.append(("out-nested-metadata-under-foreign-p2sh", mut(lambda s, t: nest(s, t, S.p2sh(b"\x99" * 20)))))
+        out.append(("out-nested-metadata-committing", mut(lambda s, t: nest(s, t, S.p2sh(S.hash160(S.p2wsh(S.sha256(script))))))))
 
         def set_change(s, t, script, bip32):
             s["outputs"][ci][field] = script
+            if kind == "p2sh-p2wsh":
+                s["outputs"][ci]["redeem_script"] = S.p2wsh(S.sha256(script))
             s["outputs"][ci]["bip32"] = bip32
             t["outs"][ci]["spk"] = commit(script)
         # 2. metadata pointing to a different quorum (scriptPubKey commits to that script)
@@ -1004,6 +1019,8 @@ def tamper_catalogue(case, st):
                     keys[k] = fps[j] + S.path_bytes(BASE_IDX + [1, 1])
                 sc = S.multisig_script(m, sorted(keys))
                 s["outputs"][oj][field] = sc
+                if kind == "p2sh-p2wsh":
+                    s["outputs"][oj]["redeem_script"] = S.p2wsh(S.sha256(sc))
                 s["outputs"][oj]["bip32"] = keys
                 t["outs"][oj]["spk"] = commit(sc)
             out.append(("out-second-change", mut(second)))
@@ -1040,6 +1057,15 @@ def tamper_catalogue(case, st):
     if i0["witness_utxo"] is not None and i0["non_witness_utxo"] is None:
         a0, sp0 = S.txout_parse(i0["witness_utxo"])
         out.append(("in-witness-utxo-script-foreign", mut(lambda s, t: s["inputs"][0].__setitem__("witness_utxo", S.txout_ser(a0, S.p2wsh(b"\x66" * 32))))))
+        # a segwit input carrying BOTH records (a foreign updater may add the full previous tx): the two must agree
+        full0 = case.funding[0].serialize()
+
+        def both(s, t, delta):
+            s["inputs"][0]["non_witness_utxo"] = full0
+            s["inputs"][0]["witness_utxo"] = S.txout_ser(a0 + delta, sp0)
+        out.append(("in-both-records-witness-amount-deflated", mut(lambda s, t: both(s, t, -90000))))
+        out.append(("in-both-records-witness-amount-inflated", mut(lambda s, t: both(s, t, 5000000))))
+        out.append(("in-both-records-agreeing", mut(lambda s, t: both(s, t, 0))))
     fscript = S.multisig_script(m, sorted(S.derive_pub(xp[j % n], [3, j]) for j in range(n)))
     out.append(("in-script-foreign", mut(lambda s, t: s["inputs"][0].__setitem__(field, fscript))))
     ib = i0["bip32"]
